@@ -256,8 +256,7 @@ impl DebugSession {
                 };
 
                 match views {
-                    Ok(mut v) if !v.is_empty() => {
-                        let first = v.remove(0);
+                    Ok(v) if !v.is_empty() => {
                         let id = alloc_id();
                         let dap_bp = json!({
                             "id": id,
@@ -267,7 +266,7 @@ impl DebugSession {
                         });
                         new_breakpoints.push(BreakpointRecord {
                             id,
-                            addresses: vec![first.addr],
+                            addresses: v.iter().map(|view| view.addr).collect(),
                             condition: options.condition,
                             hit_condition: options.hit_condition,
                             log_message: options.log_message,
